@@ -62,7 +62,8 @@ Stop(s) ==
     IF ~s.started THEN s
     ELSE LET s0 == [s EXCEPT !.started = FALSE, !.overflow = IF s.mode = "last" THEN "visible" ELSE @]
              s1 == Draw(s0, <<>>)
-             restored(x) == [Emit(x, <<<<"show", 0>>>>) EXCEPT !.hooks = @ - 1, !.redirected = FALSE]
+             \* "visible" serves the last frame only: the display keeps the vertical_overflow it was given for a later start()
+             restored(x) == [Emit(x, <<<<"show", 0>>>>) EXCEPT !.hooks = @ - 1, !.redirected = FALSE, !.overflow = s.overflow]
          IN IF s1.raised THEN restored(s1)
             ELSE LET s2 == restored(Emit(s1, <<<<"nl", 0>>>>))
                  \* the region is given up: a later start begins a fresh one (shape 0)
